@@ -646,6 +646,10 @@ class BehavioralRTLIRToVVisitorL1( bir.BehavioralRTLIRNodeVisitor ):
       # The declared constant has its own (smaller) width and a cast would
       # zero-extend it: two's complement in the width of the context
       return f"{nbits}'d{node.obj & ( ( 1 << nbits ) - 1 )}"
+    if isinstance( node.Type.get_dtype(), rdt.Struct ):
+      # The constant is declared with its struct type: a size cast would
+      # make it a plain vector, of which no field can be selected
+      return f"__const__{node.name}"
     return f"{nbits}'( __const__{node.name} )"
 
   #-----------------------------------------------------------------------
